@@ -1,0 +1,12 @@
+//go:build verif
+
+package recovery
+
+// Machine-checked contracts (comment-only; compiled to nothing). Checked by /verif/bin/stfsvc.
+
+//@ func Index
+//@   property C10
+//@   safety C10
+//@   requires decryptHeader != nil && verifyHeader != nil
+//@   modifies *
+//@   ensures [drive-unchanged] driveHeld == old(driveHeld)
